@@ -489,6 +489,38 @@ fn audible_ay(ctx: &Ctx) {
         }
         ctx.outcome((got * 1e5) as u64);
     }
+    // "independent of what the machine was doing before", audible part: a one-shot envelope (shape
+    // 9: decay, then hold at 0) sounds after the load; once it has decayed the SAME file is loaded
+    // again into the same machine (every register value, R13 included, equals what the chip already
+    // holds): the envelope must start again.
+    let mut s2 = state(true, 1);
+    s2.ay_regs = [0x80, 0x00, 0x00, 0x00, 0x00, 0x00, 0x00, 0x3E, 0x10, 0x00, 0x00, 0x00, 0x06, 0x09, 0x00, 0x00];
+    for enc in [Enc::Szx { compressed: false, order: 0, unknown: false, minor: 4 }] {
+        let mut e = mk();
+        if load(&mut e, enc, encode(&s2, enc, false)) != Ok(Ok(())) {
+            continue;
+        }
+        let first = rms(&mut e);
+        for _ in 0..60 {
+            let _ = e.emulate_frames(Duration::from_secs(100));
+        }
+        let decayed = rms(&mut e);
+        if load(&mut e, enc, encode(&s2, enc, false)) != Ok(Ok(())) {
+            continue;
+        }
+        let again = rms(&mut e);
+        ctx.add_eval(1);
+        if first < 1e-3 || decayed > first * 0.2 {
+            ctx.note("ay_envelope_reload_vacuous", json!([first, decayed]));
+        } else if again < first * 0.5 || again > first * 2.0 {
+            ctx.violation(
+                &format!("C14:ay:envelope-not-restarted-by-reload:{}", enc_class(enc)),
+                &format!("{} describing an AY in the decay of a one-shot envelope: output RMS right after the load into a fresh machine {:.5}, after 60 frames {:.5}; loading the same file again into that machine gives {:.5} (the load must put the chip into the state the file describes whatever the chip held before)", enc_name(enc), first, decayed, again),
+                json!({"kind":"ay-envelope-reload","encoding":enc_name(enc)}),
+            );
+        }
+        ctx.outcome((again * 1e5) as u64 ^ 0xE9);
+    }
 }
 
 /// HALTED and EILAST flags of SZX
@@ -730,7 +762,7 @@ pub fn run(tier: Tier, seed: u64, replay: Option<String>) -> i32 {
     ctx.sample(json_case(true, 3, Enc::Szx { compressed: true, order: 4, unknown: false, minor: 4 }, Rx::Locked, "absolute"));
     ctx.note("not_judged", json!("which of the two published conventions (PC on the HALT / after it) an SZX with HALTED uses; IFF1 and AY/hidden latches for SNA (not carried); mouse presence is checked only through SZX"));
     ctx.finish(
-        "abstract states (registers incl. alternates, IM, I/R boundary values, border, six paging values incl. shadow screen and lock, position-coded RAM in all banks, pictures in both screens, AY register file) written by the spec-based writers as SNA, SZX stored, SZX zlib, SZX in 6 chunk orders, SZX with unknown chunks interleaved, v1.4/1.5; loaded through assets returning short reads of rotating sizes {whole,1,2,3,7,127,128,129} into seven receivers (fresh, halted, mid FD prefix, paging locked, everything different incl. AY, ROM running mid-frame, paging latch already equal to the file's byte); absolute oracle: registers, IFFs, IM, HALT/prefix/EI latches cleared, border, paging latch+lock+map, every RAM bank, AY selected register and all 16 registers read back through the ports, picture after 3 frames = decode of the file's displayed screen, and of the other screen after the program flips bit 3; differential: all encodings x receivers of one state end in the same digest of registers, RAM and both frame buffers; audible AY state vs a port-written reference; HALTED (both PC conventions, also with a 76h byte in front of the HALT; exactly one interrupt must release it and return behind the HALT) and EILAST; files for the other model; SCR into four receivers. distinct_nontrivial = loads",
+        "abstract states (registers incl. alternates, IM, I/R boundary values, border, six paging values incl. shadow screen and lock, position-coded RAM in all banks, pictures in both screens, AY register file) written by the spec-based writers as SNA, SZX stored, SZX zlib, SZX in 6 chunk orders, SZX with unknown chunks interleaved, v1.4/1.5; loaded through assets returning short reads of rotating sizes {whole,1,2,3,7,127,128,129} into seven receivers (fresh, halted, mid FD prefix, paging locked, everything different incl. AY, ROM running mid-frame, paging latch already equal to the file's byte); absolute oracle: registers, IFFs, IM, HALT/prefix/EI latches cleared, border, paging latch+lock+map, every RAM bank, AY selected register and all 16 registers read back through the ports, picture after 3 frames = decode of the file's displayed screen, and of the other screen after the program flips bit 3; differential: all encodings x receivers of one state end in the same digest of registers, RAM and both frame buffers; audible AY state vs a port-written reference, and a one-shot envelope restarted by loading the same file again after it has decayed; HALTED (both PC conventions, also with a 76h byte in front of the HALT; exactly one interrupt must release it and return behind the HALT) and EILAST; files for the other model; SCR into four receivers. distinct_nontrivial = loads",
         false,
         &["writers in formats.rs follow the published SNA/SZX layouts, not the loaders"],
     )
